@@ -54,8 +54,8 @@ def _f2b_shapes():
 
         def gen(rng, be=be):
             from pyvc.bounded import gen_inputs
-            return {'f': rng.choice([0.0, -0.0, 1.5, -2.25, 65504.0, 65520.0, 1e5, -1e5, 3.4e38, 3.5e38, -1e39, 1e300, 5e-324, float('inf'), float('-inf'),
-                                     rng.uniform(-1e6, 1e6)]), 'length': rng.choice([16, 32, 64, 16, 32, 64, 0, 8, 17, 128, -16])}
+            from pyvc.bounded import FLOAT_BOUNDARY
+            return {'f': rng.choice(FLOAT_BOUNDARY + [rng.uniform(-1e6, 1e6)]), 'length': rng.choice([16, 32, 64, 16, 32, 64, 16, 32, 0, 8, 17, 128, -16])}
         out.append(Shape(f'big_endian={be}', build, real, gen=gen))
     return out
 
